@@ -234,3 +234,22 @@ PROPS["C14"] = Spec(
     bounds={"quick": "8 classes, depth<=3, 4x1500", "thorough": "depth<=4, 16x12000"},
     assumptions=COMMON_ASSUMPTIONS + ["entry points come from harness/fakedist/verif_c14-0.0.dist-info through importlib.metadata"],
 )
+
+PROPS["C16"] = Spec(
+    engine="harness.engines.cli", quick_cases=1500, thorough_cases=15000,
+    rule="1-3 YAML files rendered with PyYAML from generated nested dicts (overlapping top-level, component and service sections; "
+    "scalars of every YAML type, lists, None; !Env / !TextFile / !BinaryFile tags with set and unset variables, paths with spaces, "
+    "arbitrary bytes), 0-4 --set overrides on existing and new nested paths with escaped dots and YAML-typed values (flow "
+    "lists/dicts), service layouts {top-level component, one, several with/without default}, --service and ASPHALT_SERVICE in "
+    "{absent, existing, missing}; the command is run in-process through click with run_application replaced by a recorder; the "
+    "selection ladder x layouts x flag x env (350 combinations) is enumerated completely on every run; oracle: reference merge of "
+    "the generator's Python values, independently written escaped-dot override, ladder, service-over-top-level merge; recorder "
+    "called once with exactly (type, component config, options) - types compared strictly (True != 1) - or, for error cases, an "
+    "error and no call; non-trivial = (>=2 files with a nested key on both sides) or an escaped dot or both --service and the "
+    "variable or a service section overriding a nested top-level key",
+    bounds={"quick": "full ladder + 4x1500 generated invocations", "thorough": "full ladder + 16x15000"},
+    assumptions=["PyYAML is trusted on both sides (rendering the files and parsing them)", "click's argument parsing is trusted",
+                 "error *text* is not compared (click 8.5 writes it to stderr), only that the command fails and starts nothing",
+                 "a top-level `component` is never mixed with `services` (the guide says the one replaces the other)",
+                 "--set paths never go through a non-mapping"],
+)
